@@ -34,6 +34,9 @@ __CPROVER_ensures(__CPROVER_return_value >= 0)
 __CPROVER_assigns()
 ;
 
+/* value of `wo(a, t)` (operator<=> on NaN-free elements) as an int: negative / zero / positive */
+static inline int cmp3(elem_t a, elem_t b) { return (a > b) - (a < b); }
+
 /* libstdc++ std::ranges::next(it, n, bound) for random-access iterators with a sized sentinel (bits/ranges_base.h,
  * ranges::advance): requires n and (bound - it) not to have opposite signs (checked as an assertion) */
 static inline const elem_t *ranges_next(const elem_t *it, intptr_t n, const elem_t *bound)
